@@ -728,7 +728,8 @@ pub fn gen_cap_server(tapes: &[Vec<u32>]) -> RawCase {
         cfg.max_send_buffer = Some(*t.pick(&[1usize, 100, 1000, 16384, 1 << 20]));
     }
     let k = 1 + t.below(4);
-    let return_variant = k >= 2 && t.chance(1, 3);
+    let return_variant = k >= 2 && t.chance(2, 5);
+    let settings_variant = return_variant && t.chance(1, 3);
     let peer_iw = if return_variant { 1 << 20 } else { *t.pick(&[65535u32, 1000, 100_000, 1 << 20]) };
     let mut script: Vec<PStep> = vec![PStep::Barrier];
     for i in 0..k {
@@ -738,9 +739,44 @@ pub fn gen_cap_server(tapes: &[Vec<u32>]) -> RawCase {
     let mut ops: Vec<CapOp> = Vec::new();
     let mut grant = *t.pick(&[Grant::Eager, Grant::Threshold(10000), Grant::Drip(500)]);
     let mut item = "truth";
-    if return_variant {
+    if settings_variant {
+        // no connection-level grant ever; several streams hold assigned capacity when the peer lowers (and later
+        // restores) SETTINGS_INITIAL_WINDOW_SIZE: what is taken from them must come back to the pool
+        grant = Grant::Never;
+        cfg.max_send_buffer = None;
+        item = "return:settings-lowered";
+        let share = 65535 / k;
+        for s in 0..k {
+            ops.push(CapOp::Reserve { s, n: 1 + t.below(share) });
+        }
+        for s in 0..k {
+            ops.push(CapOp::WaitCap { s });
+        }
+        if t.bool() {
+            let s = t.below(k);
+            ops.push(CapOp::Send { s, n: 1 + t.below(2000) });
+        }
+        ops.push(CapOp::Census);
+        ops.push(CapOp::Yield(600));
+        script.push(PStep::Yield(250));
+        script.push(PStep::Frame { f: Frame::Settings { ack: false, params: vec![(4, *t.pick(&[0u32, 1, 100, 5000]))] }, extra_flags: 0, r_bit: false });
+        script.push(PStep::Yield(80));
+        if t.chance(1, 3) {
+            script.push(PStep::Frame { f: Frame::Settings { ack: false, params: vec![(4, *t.pick(&[0u32, 10, 20000]))] }, extra_flags: 0, r_bit: false });
+            script.push(PStep::Yield(60));
+        }
+        script.push(PStep::Frame { f: Frame::Settings { ack: false, params: vec![(4, 1 << 20)] }, extra_flags: 0, r_bit: false });
+        script.push(PStep::Yield(900));
+        // conservation probe: everybody asks for far more than there is
+        for s in 0..k {
+            ops.push(CapOp::Reserve { s, n: 1 << 20 });
+        }
+        ops.push(CapOp::Yield(300));
+        ops.push(CapOp::CensusFinal);
+    } else if return_variant {
         // nothing is ever granted: the 65535 bytes of connection window are all there is
         grant = Grant::Never;
+        cfg.max_send_buffer = None;
         let (a, b) = (0usize, 1usize);
         ops.push(CapOp::Reserve { s: a, n: 65535 + t.below(3) * 1000 });
         ops.push(CapOp::WaitCap { s: a });
@@ -750,13 +786,25 @@ pub fn gen_cap_server(tapes: &[Vec<u32>]) -> RawCase {
         let nb = 1 + t.below(30000);
         ops.push(CapOp::Reserve { s: b, n: nb });
         ops.push(CapOp::Yield(t.below(5)));
+        // A may have data buffered (flushed or not) when it gives its capacity back
+        let presend = t.chance(1, 2);
+        let mut sent_a = 0usize;
+        if presend {
+            sent_a = 1 + t.below(60000);
+            ops.push(CapOp::Send { s: a, n: sent_a });
+            if t.bool() {
+                ops.push(CapOp::Yield(t.below(4)));
+            }
+        }
         match t.below(5) {
             0 => {
                 ops.push(CapOp::Reserve { s: a, n: 0 });
                 item = "return:lower-to-zero";
             }
             1 => {
-                ops.push(CapOp::Reserve { s: a, n: t.below(20000) });
+                // (a reservation counts on top of what is buffered: leave room for B)
+                let room = 65535usize.saturating_sub(sent_a + nb);
+                ops.push(CapOp::Reserve { s: a, n: t.below(room.min(20000) + 1) });
                 item = "return:lower";
             }
             2 => {
@@ -775,7 +823,12 @@ pub fn gen_cap_server(tapes: &[Vec<u32>]) -> RawCase {
         ops.push(CapOp::WaitCap { s: b });
         ops.push(CapOp::SendCap { s: b });
         ops.push(CapOp::Census);
-        script.push(PStep::Yield(400));
+        // conservation probe: B asks for far more than there is; what it is assigned (plus what A still holds) is
+        // all the connection window that is not on the wire
+        ops.push(CapOp::Reserve { s: b, n: 1 << 20 });
+        ops.push(CapOp::Yield(300));
+        ops.push(CapOp::CensusFinal);
+        script.push(PStep::Yield(900));
     } else {
         // phase 1: anything goes while the peer grants normally
         let n1 = t.below(14);
@@ -860,6 +913,51 @@ pub fn check_c16(case: &RawCase, rr: &RawRun, tap: &Tap, out: &mut Outcome) {
                 out.label("census");
                 if total > credit.max(0) {
                     out.fail("C16", "capacity/pool", "C16/assigned-capacity-exceeds-connection-window", format!("at step {} capacity() over all streams adds up to {} but the connection window the peer granted leaves only {} ({})", ev.step, total, credit, rest));
+                }
+            }
+        }
+    }
+    // (conservation) final census: every open stream asks for far more than exists, nothing is granted at connection
+    // level and the stream windows are huge — what the streams hold together is exactly the connection window not on the wire
+    for ev in rr.run.events.iter().filter(|ev| ev.side == e) {
+        if let Api::ConnOp { op } = &ev.api {
+            if let Some(rest) = op.strip_prefix("census-final ") {
+                let total: i64 = rest.split(|c: char| !c.is_ascii_digit()).filter(|x| !x.is_empty()).enumerate().filter(|(i, _)| i % 2 == 1).filter_map(|(_, x)| x.parse::<i64>().ok()).sum();
+                let credit = 65535 + wu0.iter().filter(|x| x.0 <= ev.step).map(|x| x.1).sum::<i64>() - data_w.iter().filter(|x| x.0 <= ev.step).map(|x| x.1).sum::<i64>();
+                // settled: whatever the live streams submitted is on the wire (buffered data is capacity in use),
+                // and the peer delivered nothing for a while
+                let mut sub: std::collections::HashMap<u32, i64> = std::collections::HashMap::new();
+                let mut gone: std::collections::HashSet<u32> = std::collections::HashSet::new();
+                for x in rr.run.events.iter().filter(|x| x.side == e && x.step <= ev.step && x.key != 0) {
+                    match &x.api {
+                        Api::SentData { len, .. } => *sub.entry(x.key).or_insert(0) += *len as i64,
+                        Api::SentReset { .. } | Api::DroppedSend => {
+                            gone.insert(x.key);
+                        }
+                        _ => {}
+                    }
+                }
+                let flushed = sub.iter().filter(|(k, _)| !gone.contains(k)).all(|(k, v)| {
+                    let w: i64 = tap.frames.iter().filter(|f| f.from == e && f.raw.stream == *k && f.t_w <= ev.step).filter_map(|f| if let Ok(Frame::Data { data, .. }) = &f.frame { Some(data.len() as i64) } else { None }).sum();
+                    w == *v
+                });
+                let peer_quiet = tap.frames.iter().filter(|f| f.from != e).filter_map(|f| f.t_d).filter(|t| *t <= ev.step).max().unwrap_or(0) + 40 < ev.step;
+                let peer_reset = tap.frames.iter().any(|f| f.from != e && matches!(&f.frame, Ok(Frame::Rst { .. })));
+                if !flushed || !peer_quiet || peer_reset || rest == "[]" {
+                    out.label("census-final-unsettled");
+                    continue;
+                }
+                out.label("census-final");
+                out.nontrivial = true;
+                if total > credit {
+                    out.fail("C16", "capacity/pool", "C16/assigned-capacity-exceeds-connection-window", format!("final census at step {}: {} assigned but only {} connection window left ({})", ev.step, total, credit, rest));
+                } else if total < credit {
+                    out.fail(
+                        "C16",
+                        "capacity/conservation",
+                        format!("C16/capacity-lost/{}", item),
+                        format!("variant {}: at step {} (connection settled, every open stream reserving 1 MiB, stream windows 1 MiB, no connection-level grant ever) the streams hold {} bytes of capacity together ({}) although {} bytes of the connection window are neither on the wire nor granted back: {} bytes of send capacity were lost", item, ev.step, total, rest, credit, credit - total),
+                    );
                 }
             }
         }
